@@ -38,6 +38,13 @@ Theorem C20_fqn_halves_feed_exact_lookups :
                   ("importer.Import", "pkgPath"); ("lookupType", "pkg, pkgPath, objectName")].
 Proof. exact (proj2 halves_feed_the_lookup). Qed.
 
+(* every cache FindType consults or fills is keyed by the whole fully-qualified string (the per-importer one together with the
+   asking package): an answer is never served for another name with the same last element or the same package *)
+Theorem C20_fqn_caches_are_keyed_by_the_whole_name :
+  gen_fqn_cache_keys = [("importer.depTypes", "depTypeKey{pkg: currentPkg, fqn: fqn}"); ("state.typeByFQN", "fqn")] /\
+  gen_fqn_key_structs = [("depTypeKey", "pkg *types.Package; fqn string")].
+Proof. exact (proj2 caches_are_keyed_by_the_whole_name). Qed.
+
 Example c20_fqn_examples :
   gen_split_fqn "gopkg.in/yaml.v3.Marshaler" = Some ("gopkg.in/yaml.v3", "Marshaler") /\
   gen_split_fqn "example.com/c20/lib/multi.dot.v2.Iface" = Some ("example.com/c20/lib/multi.dot.v2", "Iface") /\
